@@ -204,8 +204,17 @@ def member_of(var, idx):
 _WORKER = [None, None]
 
 
+class WorkerFailed(Exception):
+    pass
+
+
 def _call_worker(i):
-    return _WORKER[0](_WORKER[1][i])
+    # a BaseException escaping a pool worker (e.g. Infeasible outside explore()) would hang the pool: turn it into data
+    try:
+        return ("ok", _WORKER[0](_WORKER[1][i]))
+    except BaseException:   # noqa
+        import traceback
+        return ("err", traceback.format_exc())
 
 
 def par_explore(worker, splits, procs=None):
@@ -220,4 +229,8 @@ def par_explore(worker, splits, procs=None):
     _WORKER[0], _WORKER[1] = worker, splits
     ctx = mp.get_context("fork")
     with ctx.Pool(procs) as pool:
-        return pool.map(_call_worker, range(len(splits)), chunksize=1)
+        outs = pool.map(_call_worker, range(len(splits)), chunksize=1)
+    for tag, val in outs:
+        if tag == "err":
+            raise WorkerFailed(val)
+    return [val for _tag, val in outs]
